@@ -93,6 +93,14 @@ theorem continuous_bounds_noise {b : Batt ℝ} (hb : Inv b) (hm : 0 < b.maxPower
   obtain ⟨b', r, h, hs, hsp⟩ := contCharge_bounds hb hm ν hV hT hp
   exact ⟨b', r, h, hs, hb.of_sameParams hsp hs.charge_le_cap⟩
 
+/-- why the clamp is needed (finding F1, the code before commit 234ccf3): whenever the scaled
+    draw exceeds the pilot's SoC rate, the unclamped `curr_soc − |scaled_noise|` lies strictly
+    below the SoC the call started from — negative rate, falling charge -/
+theorem noise_clamp_needed {s ts pd0 md x : ℝ} (hmd : 0 < md) (hpd : 0 < pd0) (hts : ts < 1)
+    (hs : s ≤ 1) (hx : min pd0 md < |x|) : contSoc s ts pd0 md - |x| < s := by
+  have := (contSoc_bounds hmd hpd hts hs).2.1
+  linarith
+
 /-- the error branches of `Battery.charge` / `Linear2StageBattery.charge`: `ValueError` for
     `V ≤ 0 ∨ T ≤ 0`, whatever the battery, pilot and draw; and conversely the call returns
     under the guards (for the continuous calculation with a non-zero pilot also
@@ -197,6 +205,14 @@ example (ν : ℝ) : ∃ b' r, contCharge f1Batt 1 208 5 ν = .ok (b', r) ∧ 0 
     (by constructor <;> norm_num [f1Batt]) (by norm_num [f1Batt]) ν
     (by norm_num : (0 : ℝ) < 208) (by norm_num : (0 : ℝ) < 5) (by norm_num : (0 : ℝ) ≤ 1)
   exact ⟨b', r, h, hs.rate_nonneg, hs.rate_le_pilot, hs.charge_mono⟩
+
+/-- the F1 input satisfies the hypothesis of `noise_clamp_needed`: the draw of seed 0,
+    `3.528…`, scaled to SoC, is about 17 times the pilot's SoC rate for 1 A -/
+example : min (pd0Of f1Batt 1 208 5) (mdOf f1Batt 5) < |(3.528 : ℝ) * (5 / 60) / f1Batt.capacity| := by
+  have h : min (pd0Of f1Batt 1 208 5) (mdOf f1Batt 5) ≤ pd0Of f1Batt 1 208 5 := min_le_left _ _
+  refine lt_of_le_of_lt h ?_
+  rw [abs_of_pos (by norm_num [f1Batt])]
+  norm_num [pd0Of, f1Batt]
 
 /-- an ideal battery one kWh short of full -/
 def nearFull : Batt ℚ :=
